@@ -160,6 +160,8 @@ def handleLookup (args : List String) : String :=
               optIdx (specBinExact lookup keys)
             else if (mm == 1 || mm == -1) && sm == 2 && !keys.isEmpty && sameKind lookup keys && strictlyRuns false keys then
               optIdx (if mm == 1 then specBinNextLarger lookup keys else specBinNextSmaller lookup keys)
+            else if (mm == 1 || mm == -1) && sm == -2 && !keys.isEmpty && sameKind lookup keys && strictlyRuns true keys then
+              optIdx (if mm == 1 then specBinDescNextLarger lookup keys else specBinDescNextSmaller lookup keys)
             else "-"
           | none => "-"
         s!"{encRes (xmatchFn lookup (.list rows) mm sm)} | {spec} | "
